@@ -34,6 +34,21 @@ def main():
         ctx.replay = None
     try:
         mod.run(ctx)
+        if a.tier == "thorough" and not a.replay and not a.only:
+            # deepen the randomised bindings: the parts that do not depend on the seed (bounded models, exported tables) ran once
+            # above; the recorded-call / history / replay parts are repeated under fresh seeds until the time budget is used
+            import time
+            budget = float(os.environ.get("VERIF_THOROUGH_BUDGET", "1500"))
+            max_rounds = int(os.environ.get("VERIF_THOROUGH_ROUNDS", "24"))
+            ctx.skip = {"mc", "toy", "tables", "table", "fetcher", "histories"}
+            rounds = 0
+            t_first = time.time() - ctx.t0
+            while rounds < max_rounds and not ctx.violations and (time.time() - ctx.t0) + t_first * 0.6 < budget:
+                rounds += 1
+                ctx.seed = a.seed + 1000003 * rounds
+                mod.run(ctx)
+            ctx.seed = a.seed
+            ctx.notes.append("thorough tier: %d additional rounds of the randomised parts under seeds seed + 1000003*r (time budget %ds)" % (rounds, budget))
     except MachineryError as e:
         print("MACHINERY-FAILURE property=%s: %s" % (prop, e))
         ctx.finish(machinery_failed=True)
